@@ -20,7 +20,24 @@ def r1(ctx):
     ctx.rule('C04-R1', 'vote_leap: Some(X) only if votes_X * 2 > selection.len() - votes_unknown (strict, same subtrahend); counters are '
              'incremented by one in the arm of the matching variant only; None otherwise')
     b = ctx.P.body(COMBM + '::vote_leap')
-    counter = {'NoWarning': 'votes_none', 'Leap59': 'votes_59', 'Leap61': 'votes_61'}
+    # the four vote counters are found by role, not by name: user locals with the definitions {0, (itself + 1)}, each classified by the
+    # leap-indicator arm in which its increment sits
+    arm_of = {}
+    incs = {}
+    for i, l in enumerate(b.locals):
+        if not (l.get('user') and l.get('name')):
+            continue
+        ds = [d for d in (b.defs().get(i) or []) if d[2] == 'assign']
+        vals = sorted(S(b.rvalue_term(d[3])) for d in ds)
+        if len(ds) == 2 and vals[1] == '0' and re.match(r'^\(%s\{.*\} \+ 1\)$' % re.escape(l['name']), vals[0]):
+            inc = [d for d in ds if S(b.rvalue_term(d[3])) != '0'][0]
+            arms = [a for a in ('NoWarning', 'Leap59', 'Leap61', 'Unknown') if b.must_pass(inc[0], fact_is(r'\.leap_indicator$', [a]))]
+            if len(arms) == 1:
+                arm_of[arms[0]] = l['name']
+                incs[l['name']] = (S(b.rvalue_term(inc[3])), inc[0])
+    ctx.check('vote_leap|counters', sorted(arm_of) == ['Leap59', 'Leap61', 'NoWarning', 'Unknown'], 'vote counters found per arm: %s' % arm_of, sample=arm_of)
+    counter = {k: v for k, v in arm_of.items() if k != 'Unknown'}
+    unk = re.escape(arm_of.get('Unknown', '\0'))
     seen = set()
     for s, v in ret_assigns(b):
         m = re.match(r'^Option::Some\{0: NtpLeapIndicator::(\w+)\{\}\}$', v)
@@ -32,27 +49,18 @@ def r1(ctx):
         cn = counter.get(var)
         ctx.check('vote_leap|%s|known-variant' % var, cn is not None, 'vote_leap can announce %s' % var, s.where())
         if cn:
-            g = fact_cmp('Gt', r'^\(%s\{.*\} \* 2\)$' % cn, r'^\(slice::len\(selection\) - votes_unknown\{.*\}\)$')
+            g = fact_cmp('Gt', r'^\(%s\{.*\} \* 2\)$' % re.escape(cn), r'^\(slice::len\(selection\) - %s\{.*\}\)$' % unk)
             ctx.guard(b, s, 'strict-majority', g, key='vote_leap|%s|strict-majority' % var,
-                      msg='Some(%s) is not guarded by %s*2 > selection.len() - votes_unknown' % (var, cn))
+                      msg='Some(%s) is not guarded by (votes for %s)*2 > selection.len() - (votes for Unknown)' % (var, var))
             ctx.guard(b, s, 'after-count', fact_is(r'Iter::next\(', 'None'), key='vote_leap|%s|after-count' % var)
     ctx.check('vote_leap|announces', seen == set(counter), 'announced variants: %s' % sorted(seen), sample=sorted(seen))
-    # counter increments
-    incs = {}
-    for nm in list(counter.values()) + ['votes_unknown']:
-        li = [i for i, l in enumerate(b.locals) if l.get('name') == nm]
-        for d in b.defs()[one(li, 'counter ' + nm)]:
-            if d[2] != 'assign':
-                continue
-            v = S(b.rvalue_term(d[3]))
-            if v == '0':
-                continue
-            incs[nm] = (v, d[0])
-    want_arm = {'votes_none': 'NoWarning', 'votes_59': 'Leap59', 'votes_61': 'Leap61', 'votes_unknown': 'Unknown'}
-    for nm, arm in want_arm.items():
+    # counter increments: exactly one `+ 1` per counter, in the arm of its own variant (established above), and no other writer
+    key_of = {'NoWarning': 'votes_none', 'Leap59': 'votes_59', 'Leap61': 'votes_61', 'Unknown': 'votes_unknown'}
+    for arm, kname in key_of.items():
+        nm = arm_of.get(arm)
         v, bb = incs.get(nm, (None, None))
-        ok = v is not None and re.match(r'^\(%s\{.*\} \+ 1\)$' % nm, v) is not None and b.must_pass(bb, fact_is(r'\.leap_indicator$', [arm]))
-        ctx.check('vote_leap|%s|increment-arm' % nm, ok, '%s is updated with `%s` outside the %s arm' % (nm, v, arm), sample=v)
+        ok = v is not None and b.must_pass(bb, fact_is(r'\.leap_indicator$', [arm]))
+        ctx.check('vote_leap|%s|increment-arm' % kname, ok, 'the counter of %s is updated with `%s` outside the %s arm' % (arm, v, arm), sample=v)
 
 
 def r2(ctx):
